@@ -593,7 +593,7 @@ func runEngineCheckExtra(t *testing.T, prop string, cfgs []sched.Config, names f
 		// every shard explores every scenario, but only its share of the level-2 subtrees
 		c.ShardI, c.ShardN = si, sn
 		st, vs := sched.Explore(c)
-		if st.Steps == 0 && si == 0 {
+		if st.Steps == 0 && si == 0 && st.Capped == "" {
 			t.Fatal("vacuous: no scheduling points")
 		}
 		res.AddSched(st, vs)
